@@ -150,8 +150,10 @@ def handle (args : List String) : String :=
       match wait n as with
       | .ok .badFlag => "badflag"
       | .ok .all => "all"
-      | .ok (.notChild k) => "notchild " ++ toString k
-      | .ok (.waited l) => "waited " ++ csvNat l
+      | .ok (.notChild k) =>
+        let a := as.getD k []
+        "notchild " ++ toHex ((cutPrefixG a).getD a)
+      | .ok (.waited _) => "waited"
       | .panic => "panic"
     | _, _ => "bad-op"
   | "gnext" :: ai :: ri :: optstr :: as =>
